@@ -322,6 +322,13 @@ func registerStdModels() {
 		if isZeroish(*doneP) {
 			it.call(fr, 0, args[1], nil)
 			it.storeAt(doneP, oneLike(*doneP))
+			// happens-before: the completion of f is ordered before the return of every
+			// later Do (race detector)
+			if it.lockLog != nil {
+				it.lockLog.release(it.lockLog.cur(fr), p)
+			}
+		} else if it.lockLog != nil {
+			it.lockLog.acquire(it.lockLog.cur(fr), p)
 		}
 		return nil
 	})
@@ -329,12 +336,18 @@ func registerStdModels() {
 		f := args[0]
 		done := false
 		var res Value
+		hb := new(int) // identity of this Once for the race detector's happens-before
 		return &Native{name: "sync.Once*", fn: func(fr2 *frame, a []Value) Value {
 			if !done {
 				it.impure("sync.Once")
 				res = it.call(fr2, 0, f, nil)
 				done = true
 				it.ex.journal = append(it.ex.journal, undoEntry{fn: func() { done = false; res = nil }})
+				if it.lockLog != nil {
+					it.lockLog.release(it.lockLog.cur(fr2), hb)
+				}
+			} else if it.lockLog != nil {
+				it.lockLog.acquire(it.lockLog.cur(fr2), hb)
 			}
 			return res
 		}}
@@ -626,7 +639,9 @@ func (it *Interp) noteLockOrder(fr *frame) {
 	if pkg == nil && fr.fn.Parent() != nil {
 		pkg = fr.fn.Parent().Package()
 	}
-	if pkg == nil || pkg.Pkg.Path() != it.targetPkg || strings.HasPrefix(fr.fn.Name(), "verif") || strings.HasPrefix(fr.fn.Name(), "Verif") {
+	// (every mutex of the repository's own packages: those are the ones the replay build
+	// replaces; harness code and the standard library are not)
+	if pkg == nil || !strings.HasPrefix(pkg.Pkg.Path(), it.repoPrefix) || strings.HasPrefix(fr.fn.Name(), "verif") || strings.HasPrefix(fr.fn.Name(), "Verif") {
 		return
 	}
 	id := 0
